@@ -22,7 +22,7 @@ theorem splitStep_pad (chk : Bool) (padKey : Nat → Nat) (rkey : Nat) (st : Opt
           | none => some p
         else st.2) := by
   obtain ⟨k0, b0⟩ := st
-  obtain ⟨o, c, v, ver⟩ := p
+  obtain ⟨o, c, v, ver, en, eo⟩ := p
   simp only at hk
   unfold splitStep
   simp only [hh, hk, ne_eq, not_true_eq_false, ↓reduceIte, hp, eligible, passes]
@@ -132,6 +132,8 @@ theorem inv_step (chk : Bool) (padKey : Nat → Nat) (rkey : Nat) (st : Option K
           cases k with
           | chunk => rfl
           | other => rfl
+          | register => rfl
+          | transaction => rfl
           | scratchpad =>
             simp only
             cases hp : padOf r with
@@ -186,40 +188,95 @@ theorem inv_fold (chk : Bool) (padKey : Nat → Nat) (rkey : Nat) (m : List (Rec
       · exact .inl h
       · exact .inr (.inr h)
 
-/-- What `handle_split_record_error` returns for scratchpads: an eligible (validly signed, and — with the address check —
-living at the requested key) pad that came under a `Scratchpad` header, whose counter bounds that of every eligible pad
-that came under a `Scratchpad` header. -/
-theorem handleSplit_spec (chk : Bool) (padKey : Nat → Nat) (rkey : Nat) (m : List (Rec B)) (r : Rec B)
-    (h : handleSplit chk padKey rkey m = some r) :
+/-- What the scratchpad part of `handle_split_record_error` returns: an eligible (validly signed, and — with the address
+check — living at the requested key) pad that came under a `Scratchpad` header, whose counter bounds that of every
+eligible pad that came under a `Scratchpad` header. -/
+theorem handleSplitPads_spec (chk : Bool) (padKey : Nat → Nat) (rkey : Nat) (m : List (Rec B)) (r : Rec B)
+    (h : handleSplitPads chk padKey rkey m = some r) :
+    ∃ p, r = ⟨some .scratchpad, .pad p⟩ ∧ p.valid = true ∧ passes chk padKey rkey p = true ∧
+      (∃ x ∈ m, headerOf x = some .scratchpad ∧ padOf x = some p) ∧
+      ∀ x ∈ m, headerOf x = some .scratchpad → ∀ q, padOf x = some q → q.valid = true → passes chk padKey rkey q = true →
+        q.ctr ≤ p.ctr := by
+  unfold handleSplitPads at h
+  obtain ⟨done, hinv, hmem⟩ := inv_fold chk padKey rkey m (none, none) [] (inv_init chk padKey rkey)
+  cases hres : (m.foldl (splitStep chk padKey rkey) (none, none)).2 with
+  | none => rw [hres] at h; cases h
+  | some p =>
+    rw [hres] at h
+    simp only [Option.some.injEq] at h
+    refine ⟨p, h.symm, ?_⟩
+    obtain ⟨hv, x, hx, hxh, hxp⟩ := hinv.fromDone p hres
+    simp only [eligible, Bool.and_eq_true] at hv
+    have hxm : x ∈ m := by have := (hmem x).1 hx; simpa using this
+    refine ⟨hv.1, hv.2, ⟨x, hxm, hxh, hxp⟩, ?_⟩
+    intro y hy hyh q hq hvq hpq
+    -- the dictated kind must be Scratchpad, otherwise no pad would have been selected
+    have hk : (m.foldl (splitStep chk padKey rkey) (none, none)).1 = some .scratchpad := by
+      cases hk' : (m.foldl (splitStep chk padKey rkey) (none, none)).1 with
+      | none => have := (hinv.noKind hk').1; rw [hres] at this; cases this
+      | some k =>
+        by_cases hks : k = .scratchpad
+        · rw [hks]
+        · have := hinv.otherKind k hk' hks; rw [hres] at this; cases this
+    obtain ⟨p', hp', hle⟩ := hinv.best hk y ((hmem y).2 (.inl hy)) hyh q hq (by simp [eligible, hvq, hpq])
+    rw [hres] at hp'; cases hp'; exact hle
+
+/-- a record `handle_split_record_error` makes up from transactions or registers: no scratchpad, no chunk -/
+def WrongKindAnswer (r : Rec B) : Prop :=
+  padOf r = none ∧ (∀ v, r.body ≠ .chunk v) ∧ (headerOf r = some .transaction ∨ headerOf r = some .register)
+
+/-- What `handle_split_record_error` returns: the accumulated transactions (the first parsable header said `Transaction`
+and more than one transaction was accumulated), a collected register (the first parsable header said `Register`; with
+`regChk` it lives at the key being read) — or the pad of `handleSplitPads_spec`. -/
+theorem handleSplit_spec (chk regChk : Bool) (padKey : Nat → Nat) (rkey : Nat) (m : List (Rec B)) (r : Rec B)
+    (h : handleSplit chk regChk padKey rkey m = some r) :
+    (WrongKindAnswer r ∧
+      ((firstKind m = some .transaction ∧ (unionTxs m).length > 1) ∨
+       (firstKind m = some .register ∧ ∃ x ∈ m, ∃ g, regOf x = some g ∧ (regChk = true → g.key = rkey)))) ∨
     ∃ p, r = ⟨some .scratchpad, .pad p⟩ ∧ p.valid = true ∧ passes chk padKey rkey p = true ∧
       (∃ x ∈ m, headerOf x = some .scratchpad ∧ padOf x = some p) ∧
       ∀ x ∈ m, headerOf x = some .scratchpad → ∀ q, padOf x = some q → q.valid = true → passes chk padKey rkey q = true →
         q.ctr ≤ p.ctr := by
   unfold handleSplit at h
   split at h
-  · obtain ⟨done, hinv, hmem⟩ := inv_fold chk padKey rkey m (none, none) [] (inv_init chk padKey rkey)
-    cases hres : (m.foldl (splitStep chk padKey rkey) (none, none)).2 with
-    | none => rw [hres] at h; cases h
-    | some p =>
-      rw [hres] at h
-      simp only [Option.some.injEq] at h
-      refine ⟨p, h.symm, ?_⟩
-      obtain ⟨hv, x, hx, hxh, hxp⟩ := hinv.fromDone p hres
-      simp only [eligible, Bool.and_eq_true] at hv
-      have hxm : x ∈ m := by have := (hmem x).1 hx; simpa using this
-      refine ⟨hv.1, hv.2, ⟨x, hxm, hxh, hxp⟩, ?_⟩
-      intro y hy hyh q hq hvq hpq
-      -- the dictated kind must be Scratchpad, otherwise no pad would have been selected
-      have hk : (m.foldl (splitStep chk padKey rkey) (none, none)).1 = some .scratchpad := by
-        cases hk' : (m.foldl (splitStep chk padKey rkey) (none, none)).1 with
-        | none => have := (hinv.noKind hk').1; rw [hres] at this; cases this
-        | some k =>
-          by_cases hks : k = .scratchpad
-          · rw [hks]
-          · have := hinv.otherKind k hk' hks; rw [hres] at this; cases this
-      obtain ⟨p', hp', hle⟩ := hinv.best hk y ((hmem y).2 (.inl hy)) hyh q hq (by simp [eligible, hvq, hpq])
-      rw [hres] at hp'; cases hp'; exact hle
+  · split at h
+    · rename_i hk
+      split at h
+      · rename_i hlen
+        simp only [Option.some.injEq] at h
+        subst h
+        exact Or.inl ⟨⟨rfl, (fun v hv => by cases hv), Or.inl rfl⟩, Or.inl ⟨hk, hlen⟩⟩
+      · cases h
+    · rename_i hk
+      split at h
+      · rename_i g rest hcol
+        simp only [Option.some.injEq] at h
+        subst h
+        refine Or.inl ⟨⟨rfl, (fun v hv => by cases hv), Or.inr rfl⟩, Or.inr ⟨hk, ?_⟩⟩
+        have hg : g ∈ collectedRegs regChk rkey m := by rw [hcol]; exact List.mem_cons_self
+        unfold collectedRegs at hg
+        rw [List.mem_filter, List.mem_filterMap] at hg
+        obtain ⟨⟨x, hx, hxg⟩, hpass⟩ := hg
+        refine ⟨x, (List.mem_filter.1 hx).1, g, hxg, ?_⟩
+        intro hc
+        subst hc
+        have : g.key = rkey ∧ g.valid = true := by simpa using hpass
+        exact this.1
+      · cases h
+    · exact .inr (handleSplitPads_spec chk padKey rkey m r h)
   · cases h
+
+/-- when the first parsable header is neither `Transaction` nor `Register` the split handling is the scratchpad part -/
+theorem handleSplit_eq_pads (chk regChk : Bool) (padKey : Nat → Nat) (rkey : Nat) (m : List (Rec B))
+    (h1 : firstKind m ≠ some .transaction) (h2 : firstKind m ≠ some .register) :
+    handleSplit chk regChk padKey rkey m = if m.length > 1 then handleSplitPads chk padKey rkey m else none := by
+  unfold handleSplit
+  split
+  · split
+    · rename_i hk; exact absurd hk h1
+    · rename_i hk; exact absurd hk h2
+    · rfl
+  · rfl
 
 theorem foldl_max_ge (pads : List Pad) : ∀ (init : Nat),
     init ≤ pads.foldl (fun m p => Nat.max m p.ctr) init ∧
